@@ -30,6 +30,9 @@ static const char *bin_name[NBIN] = { "c17bin/c17/main.b", "c17bin/c17/base.b", 
 
 static char libdir[PATH_MAX], root[PATH_MAX];
 static int prog_variant, depth = 3, selftest, verbose, ops_full = 1;
+/* large programs: `pad_reps` filler expressions (code bytes) and `pad_lines` blank lines in front of run(); pad mode sweeps pad_reps so that
+ * run()'s string switch (instruction, table, end of table) crosses code offset 32767, history fixed to load+save, then load */
+static int pad_reps, pad_lines, pad_mode, pad_from, pad_count;
 static int ver[NSRC];                   /* content version of each source */
 static long mt[NSRC];                   /* its mtime */
 static int bin_exists[NBIN]; static long bin_mt[NBIN]; static int bin_ver[NBIN][NSRC];   /* versions the binary was built from */
@@ -92,7 +95,11 @@ static void gen_text (int f, int v, char *out, size_t n) {
     if (FEAT (2)) P ("class pt { int x; string n; mixed *rest; }\n");
     P ("int g = A_CONST + B_CONST + %d;\nmapping m = ([ \"k\" : %d ]);\n", v, v);
     P ("int typed(int a, string s, mixed *r) { return a + strlen(s) + sizeof(r); }\n");
-    P ("mixed run(int a, string s) {\n  mixed r = ({ g, base_fn(a), sefun_add(a, 1), A_MACRO(a), b_name(), base_tag(), shared(a), typed(a, s, ({ })), m[\"k\"] });\n");
+    P ("int a_function_with_a_rather_long_name_for_the_string_table(int q) { return q + g; }\n");
+    P ("int another_function_whose_name_is_so_long_that_its_shared_string_lives_in_yet_another_size_class_of_the_allocator(int q) { return q - g; }\n");
+    if (pad_reps) { P ("int pad_code(int q) {\n  return (");  for (int i = 0; i < pad_reps; i++) P ((i & 15) == 15 ? "q++,\n" : "q++,"); P ("q);\n}\n"); }
+    for (int i = 0; i < pad_lines; i++) P ("\n");
+    P ("mixed run(int a, string s) {\n  mixed r = ({ g, base_fn(a), sefun_add(a, 1), A_MACRO(a), b_name(), base_tag(), shared(a), typed(a, s, ({ })), m[\"k\"],\n    a_function_with_a_rather_long_name_for_the_string_table(a), another_function_whose_name_is_so_long_that_its_shared_string_lives_in_yet_another_size_class_of_the_allocator(a) });\n");
     if (FEAT (0)) P ("  switch (s) { case \"alpha\": r += ({ \"A\" }); break; case \"beta\": case \"gamma\": r += ({ \"BG\" }); break; case \"north\": r += ({ \"N\" }); break; case 0: r += ({ \"nul\" }); break; default: r += ({ \"dflt\" }); }\n");
     if (FEAT (1)) P ("  switch (a) { case -5..0: r += ({ \"neg\" }); break; case 1: r += ({ \"one\" }); break; case 2..9: r += ({ \"digit\" }); break; case 1000..2000: r += ({ \"k\" }); break; default: r += ({ \"other\" }); }\n");
     if (FEAT (2)) P ("  { class pt p = new(class pt, x : a, n : s); p->rest = ({ p->x + 1 }); r += ({ p->x, p->n, p->rest }); }\n");
@@ -113,7 +120,7 @@ static void set_mtime (const char *path, long t) {
 }
 
 static void write_src (int f) {
-  static char text[16384];
+  static char text[200000];
   gen_text (f, ver[f], text, sizeof text);
   FILE *fp = fopen (src_name[f], "w");
   if (!fp) { vx_fail ("C17:harness:cannot-write", "%s: %s", src_name[f], strerror (errno)); vx_child_exit (0); }
@@ -313,7 +320,7 @@ static void compare_with_fresh (object_t *ob, const char *why) {
 
 /* ------------------------------------------------------------------ operations */
 typedef struct { int kind, a, b; char name[40]; } op_t;
-enum { O_RELOADMAIN = 20, O_FAILCOMPILE = 21, O_LOADSAVE = 0, O_LOAD, O_EDIT, O_TOUCH, O_SETREL, O_BINREL, O_DELBIN, O_SEFUN, O_DRIVERID };
+enum { O_RELOADMAIN = 20, O_FAILCOMPILE = 21, O_SEFUNEDIT = 22, O_RESTART = 23, O_LOADSAVE = 0, O_LOAD, O_EDIT, O_TOUCH, O_SETREL, O_BINREL, O_DELBIN, O_SEFUN, O_DRIVERID };
 static int last_failed;        /* the previous operation was a compile that failed (leaves nothing behind in the model) */
 static op_t ops[64]; static int nops;
 static void add_op (int kind, int a, int b, const char *fmt, ...) { va_list ap; op_t *o = &ops[nops++]; o->kind = kind; o->a = a; o->b = b; va_start (ap, fmt); vsnprintf (o->name, sizeof o->name, fmt, ap); va_end (ap); }
@@ -336,6 +343,8 @@ static void build_ops (void) {
     for (int r = 0; r < 3; r += 2) add_op (O_BINREL, B_MAIN, r, "mtime(main.b)%s", rel[r]);
     for (int r = 0; r < 3; r++) add_op (O_BINREL, B_BASE, r, "mtime(base.b)%s-than-main.b", rel[r]);
     add_op (O_SEFUN, 0, 0, "touch(simul_efun.c)+restart");
+    add_op (O_SEFUNEDIT, 0, 0, "edit(simul_efun.c), driver keeps running");
+    add_op (O_RESTART, 0, 0, "restart (stamps taken again)");
     add_op (O_DRIVERID, 0, 0, "bump(driver_id)");
   }
 }
@@ -383,6 +392,14 @@ static void apply_op (op_t *o, int step) {
     ver[F_SEFUN]++; mt[F_SEFUN] = now_t; write_src (F_SEFUN); sefun_epoch = ver[F_SEFUN]; sefun_seen_mt = now_t;
     init_binaries ();
     break;
+  case O_SEFUNEDIT:
+    /* the file changes while the driver runs: the simul_efuns in memory (and the stamp taken at start-up) stay what they were */
+    ver[F_SEFUN]++; mt[F_SEFUN] = now_t; write_src (F_SEFUN);
+    break;
+  case O_RESTART:
+    sefun_epoch = ver[F_SEFUN]; sefun_seen_mt = mt[F_SEFUN];
+    init_binaries ();
+    break;
   case O_DRIVERID: vw_c17_set_driver_id (vw_c17_driver_id () + 1); driver_bumped = 1; break;
   }
   last_failed = failed_now;
@@ -397,6 +414,7 @@ static int explore_variants;
 static void body (void) {
   char canon[1500];
   if (explore_variants) prog_variant = vx_choose_free (64, "variant");
+  if (pad_mode) pad_reps = pad_from + vx_choose_free (pad_count, "filler");
   /* private root for this execution */
   snprintf (root, sizeof root, "%s/w%d", hx_scratch_dir (), (int) getpid ());
   mkdir (root, 0755);
@@ -418,7 +436,7 @@ static void body (void) {
       if (bin_exists[b]) for (int f = 0; f < NSRC; f++) k += snprintf (canon + k, sizeof canon - (size_t) k, "%d.", bin_ver[b][f]);
     }
     vx_state (canon, (size_t) k);
-    int c = vx_choose_free (nops, "op");
+    int c = pad_mode ? 0 : vx_choose_free (nops, "op");
     vx_obs ("step %d: %s   (driver_id %x config_id %llx)", step, ops[c].name, vw_c17_driver_id (), vw_c17_config_id ());
     apply_op (&ops[c], step);
   }
@@ -449,6 +467,39 @@ int main (int argc, char **argv) {
   if (system (cmd)) { fprintf (stderr, "cannot create scratch mudlib\n"); return 2; }
   hx_boot (libdir, "SaveBinaryDir /c17bin\n", 0);
   build_ops ();
+  pad_lines = (int) vx_opt_long ("pad-lines", 0);
+  pad_reps = (int) vx_opt_long ("pad-reps", 0);
+  if (vx_opt_long ("pad-sweep", 0)) {
+    /* where does run() start with r filler expressions?  measured here with two compiles (binaries off), then thrown away */
+    long addr[2], len = 0; int reps[2] = { 1000, 3000 };
+    char *save_dir = CONFIG_STR (__SAVE_BINARIES_DIR__);
+    CONFIG_STR (__SAVE_BINARIES_DIR__) = 0;
+    snprintf (root, sizeof root, "%s/cal", hx_scratch_dir ()); mkdir (root, 0755);
+    if (chdir (root)) return 2;
+    mkdir ("c17", 0755);
+    now_t = hx_clock = 1000000000; current_time = now_t;
+    for (int k = 0; k < 2; k++) {
+      pad_reps = reps[k];
+      for (int f = 0; f < NSRC; f++) { ver[f] = 0; mt[f] = now_t - 1000 + f; write_src (f); }
+      object_t *ob = hx_load ("c17/main", 0);
+      if (!ob) { fprintf (stderr, "h_c17: padded main does not compile: %s\n", hx_last_error); return 2; }
+      program_t *pr = ob->prog; long a = -1, next = pr->program_size;
+      for (int i = 0; i < pr->num_functions_defined; i++) if (!strcmp (pr->function_table[i].name, "run")) a = pr->function_table[i].address;
+      for (int i = 0; i < pr->num_functions_defined; i++) if (pr->function_table[i].address > a && pr->function_table[i].address < next) next = pr->function_table[i].address;
+      addr[k] = a; len = next - a;
+      destruct_all ();
+    }
+    for (int f = 0; f < NSRC; f++) unlink (src_name[f]);
+    rmdir ("c17"); if (chdir (libdir)) {} rmdir (root);
+    CONFIG_STR (__SAVE_BINARIES_DIR__) = save_dir;
+    long per = (addr[1] - addr[0]) / (reps[1] - reps[0]);
+    if (per <= 0 || addr[0] < 0) { fprintf (stderr, "h_c17: cannot calibrate the filler (%ld %ld)\n", addr[0], addr[1]); return 2; }
+    long base = addr[0] - per * reps[0];
+    /* run() from [32767 - len - 60, 32767 + 60]: every byte of the function, its switch instruction and its table, passes 32767 */
+    pad_from = (int) ((32767 - len - 60 - base) / per); pad_count = (int) ((len + 120) / per) + 2; pad_mode = 1; pad_reps = 0;
+    fprintf (stderr, "h_c17: run() is %ld bytes, starts at %ld + %ld per filler expression: sweeping %d..%d expressions\n", len, base, per, pad_from, pad_from + pad_count - 1);
+    if (depth != 1) depth = 1;
+  }
   vx_count_name (0, "loads_compared_with_fresh_compile"); vx_count_name (1, "loads"); vx_count_name (2, "binaries_used"); vx_count_name (3, "loads_outside_domain_backdated_edit");
   {
     extern int __sanitizer_symbolize_pc (void *, const char *, char *, size_t) __attribute__ ((weak));
